@@ -27,7 +27,10 @@ class CmpProp(Prop):
         return subsets(self.trait_pool)
 
     def pick_combo(self, rng, traits, ftype, pool):
-        if ftype == 'P':
+        if ftype == 'F':
+            # a function pointer: compared, ordered and hashed through one `#[ord(key = ..)]` for every trait
+            return {'ord': rng.choice(['key', 'key+reverse'])}
+        if ftype in ('P', 'A'):
             c = {'ord': rng.choice(['-', '-', 'reverse']), 'partial_ord': rng.choice(['-', 'reverse', '-']),
                  'hash': rng.choice(['-', '-', 'ignore'])}
             c = G.relevant_combo(traits, c)
@@ -59,7 +62,7 @@ class CmpProp(Prop):
                 nf = rng.choice([0, 1, 1, 2, 2, 3]) if is_enum else rng.choice([0, 1, 2, 2, 3, 3, 4])
                 fl = []
                 for _ in range(nf):
-                    ft = 'P' if (allow_p and rng.random() < 0.15) else 'u8'
+                    ft = 'P' if (allow_p and rng.random() < 0.15) else 'A' if rng.random() < 0.1 else 'F' if rng.random() < 0.08 else 'u8'
                     fl.append((ft, self.pick_combo(rng, traits, ft, pool)))
                 variants.append((rng.random() < 0.5, fl))
             mode = 'attr' if rng.random() < 0.5 else 'derive'
